@@ -1163,9 +1163,15 @@ func (envs *Manager) handleDeviceEvent(evt event.DeviceEvent) {
 				WithField("envState", env.CurrentState()).
 				WithField(infologger.Level, infologger.IL_Support).
 				Debug("received TASK_INTERNAL_ERROR event from task, trying to stop the run")
-			if env.CurrentState() == "RUNNING" {
-				go func() {
-					t.GetParent().UpdateState(sm.ERROR)
+			// The task is in ERROR whatever the environment is doing: a critical role forwards
+			// this to the workflow (and the environment then goes to ERROR), a non-critical one
+			// keeps it to itself.
+			go func() {
+				if parent := t.GetParent(); parent != nil {
+					parent.UpdateState(sm.ERROR)
+				}
+				// only the failure of a critical task may end the run
+				if env.CurrentState() == "RUNNING" && t.GetTraits().Critical {
 					err = env.TryTransition(NewStopActivityTransition(envs.taskman))
 					if err != nil {
 						log.WithPrefix("scheduler").
@@ -1173,8 +1179,8 @@ func (envs *Manager) handleDeviceEvent(evt event.DeviceEvent) {
 							WithError(err).
 							Error("cannot stop run after END_OF_STREAM event")
 					}
-				}()
-			}
+				}
+			}()
 		}
 
 	}
